@@ -355,6 +355,26 @@ def r7_2(ctx: Ctx) -> RuleResult:
                     and isinstance(t, ast.Compare) and isinstance(t.ops[0], ast.Eq) and not b for t, b in conds)
             for r, conds in raises
         )
+        if not logical:
+            # the test may sit in a predicate of the class: `isinstance(x, FunctionExtension) and self._returns_non_value(x)`
+            def _non_value_predicate(t: ast.expr) -> bool:
+                if not (isinstance(t, ast.Call) and isinstance(t.func, ast.Attribute) and path_of(t.func.value) == "self" and len(t.args) == 1
+                        and path_of(t.args[0]) == param):
+                    return False
+                pred = ctx.repo.find_method(parser, t.func.attr)
+                if pred is None:
+                    return False
+                rets = [r_.value for r_ in ast.walk(pred.node) if isinstance(r_, ast.Return) and r_.value is not None]
+                yes = [v for v in rets if isinstance(v, ast.Compare) and len(v.ops) == 1 and isinstance(v.ops[0], ast.NotEq)
+                       and "return_type" in ast.unparse(v) and "VALUE" in ast.unparse(v)]
+                rest = [v for v in rets if v not in yes]
+                return bool(yes) and all(isinstance(v, ast.Constant) and v.value is False for v in rest)
+
+            logical = any(
+                any((isinstance_classes(t) or ("", []))[1] == ["FunctionExtension"] and b for t, b in conds)
+                and any(_non_value_predicate(t) and b for t, b in conds)
+                for r, conds in raises
+            )
         if nonsing:
             rr.ok(h.loc(), f"{h.name}: raises for a non-singular query")
         else:
